@@ -126,11 +126,16 @@ def enum_histories(tkey, max_ops, k=5):
     add (anything else on an empty element is a no-op); remove(i) only for positions that can exist, dot_none(a) only
     for names that were added before (judged optimistically on the ops, not on their outcome)."""
     syms = symbol_subset(tkey, k)
+    leafcount = {}
+    for l in schema().particle(tkey).leaves():
+        leafcount[l.name] = leafcount.get(l.name, 0) + 1
+    # forward adds for names that have several leaves (the only case in which forward means anything)
+    fwd = [['add_fwd', a, j] for a in syms if leafcount.get(a, 1) > 1 for j in range(min(leafcount[a], 3))]
 
     def rec(prefix, added, depth):
         if depth == 0:
             return
-        cands = [['add', a] for a in syms]
+        cands = [['add', a] for a in syms] + fwd
         if added:
             cands += [['remove', i] for i in range(min(len(added), 3))]
             cands += [['dot_none', a] for a in sorted(set(added))]
@@ -139,7 +144,7 @@ def enum_histories(tkey, max_ops, k=5):
         for op in cands:
             p = prefix + [op]
             yield p
-            yield from rec(p, added + [op[1]] if op[0] == 'add' else added, depth - 1)
+            yield from rec(p, added + [op[1]] if op[0] in ('add', 'add_fwd') else added, depth - 1)
 
     yield from rec([], [], max_ops)
 
